@@ -149,7 +149,46 @@ class SymBackend(BackendBase):
         self.ingredients[name] = ("int", v)
         return sint(v)
 
-    def tensor(self, name, shape, nonneg=False, maybe_nan=False, integer=False):
+    def tensor(self, name, shape, nonneg=False, maybe_nan=False, integer=False, ge=()):
+        """fresh tensor ingredient.  `ge`: spec tensors (same shape) that bound it from below
+        cell-wise (opaque dependent ingredient, e.g. a base that is at least the count)."""
+        t = self._tensor(name, shape, nonneg, maybe_nan, integer)
+        for lower in ge:
+            self._assume_ge(name, t, lower)
+        if ge and not all(isinstance(d, int) for d in t.rshape):
+            # ground instances of the bound at every index the tensor is read at (makes the
+            # sums hidden in the lower bound visible to the Sigma fact generator)
+            inner, sh, c, seen = t._elem, t.rshape, self.c, set()
+
+            def elem(*idx):
+                v = inner(*idx)
+                zidx = [zi(i) for i in idx]
+                key = tuple(z.get_id() for z in zidx)
+                if key not in seen and not any(sg.deps(z) for z in zidx):
+                    seen.add(key)
+                    rng = z3.And(*[z3.And(z >= 0, z < zi(d)) for z, d in zip(zidx, sh)])
+                    for lower in ge:
+                        lo = symnp.to_f(lower._elem(*idx))
+                        c.assumptions.append(z3.Implies(rng, zr(symnp.to_f(v).v) >= zr(lo.v)))
+                return v
+
+            t = STensor(sh, elem, t.kind)
+        return t
+
+    def _assume_ge(self, name, t, lower):
+        sh = t.rshape
+        if all(isinstance(d, int) for d in sh):
+            for idx in itertools.product(*[range(d) for d in sh]):
+                self.c.assume(raw(symnp.to_f(t._elem(*idx)) >= symnp.to_f(lower._elem(*idx))))
+            return
+        ks = [z3.Int("%s!g%d" % (name, i)) for i in range(len(sh))]
+        for k in ks:
+            sg._BINDER_IDS.pop(k.get_id(), None)
+        a, b = symnp.to_f(t._elem(*ks)), symnp.to_f(lower._elem(*ks))
+        rng = z3.And(*[z3.And(k >= 0, k < zi(d)) for k, d in zip(ks, sh)])
+        self.c.assume(z3.ForAll(ks, z3.Implies(rng, zr(a.v) >= zr(b.v))))
+
+    def _tensor(self, name, shape, nonneg=False, maybe_nan=False, integer=False):
         shape = tuple(raw(d) for d in shape)
         nd = len(shape)
         if self.mode == "B" and all(isinstance(d, int) for d in shape):
@@ -310,6 +349,20 @@ class SymBackend(BackendBase):
     def sqrt(self, x):
         return symnp._sqrt_scalar(symnp._rawsc(x))
 
+    def Phi(self, x):
+        from . import symstats
+
+        return symstats.norm.cdf(x)
+
+    def Tcdf(self, x, df):
+        from . import symstats
+
+        return symstats.t.cdf(x, df=df)
+
+    def rank(self, t):
+        """matrix rank of a tensor (A-NP contract of np.linalg.matrix_rank)"""
+        return self.np.linalg.matrix_rank(t)
+
     def spec_tensor(self, shape, f):
         shape = tuple(raw(d) for d in shape)
         return STensor(shape, lambda *idx: symnp._rawsc(f(*[sint(i) for i in idx])), "f")
@@ -324,11 +377,11 @@ class SymBackend(BackendBase):
         return shadow.pvc_len(x)
 
     # -- obligations
-    def check(self, name, cond, extra_hyps=()):
+    def check(self, name, cond, extra_hyps=(), facts=()):
         cond = raw(core.lift_bool(cond)) if not isinstance(cond, bool) else cond
         hy = [raw(h) for h in extra_hyps]
         hy = [h for h in hy if core._bconst(h) is not True]
-        ob = core.Obligation(name, self.c.hyps() + hy, zb(cond), "post")
+        ob = core.Obligation(name, self.c.hyps() + hy, zb(cond), "post", {"facts": list(facts)} if facts else None)
         self.c.obligations.append(ob)
 
     def skolems(self, shape, base="i"):
@@ -362,7 +415,44 @@ class SymBackend(BackendBase):
         a, e = symnp.to_f(symnp._rawsc(a)), symnp.to_f(symnp._rawsc(e))
         same_u = b_or(b_and(a.u, e.u), b_and(b_not(a.u), b_not(e.u)))
         goal = b_and(same_u, b_implies(b_not(a.u), r_cmp("==", a.v, e.v)))
-        self.check(name, goal, extra_hyps)
+        facts = []
+        if core.is_z3(a.v) or core.is_z3(e.v):
+            za, ze = zr(a.v), zr(e.v)
+            if not za.eq(ze):
+                facts = self._equality_certificate(za, ze, a.u, e.u, extra_hyps)
+        self.check(name, goal, extra_hyps, facts)
+
+    def _equality_certificate(self, za, ze, ua, ue, extra_hyps):
+        """certificates for za == ze: identities of rational functions, per feasible truth
+        assignment of the ite-conditions involved (no non-linear search in the solver).
+        Each fact reads: (assignment and all divisors non-zero) => za == ze."""
+        from .run import _denominators
+
+        qf = [h for h in self.c.hyps() + [raw(h) for h in extra_hyps] if core.is_z3(h) and not z3.is_quantifier(h)]
+        base = z3.Solver()
+        base.set("timeout", 1000)
+        for h in qf:
+            base.add(h)
+        for u in (ua, ue):
+            if core._bconst(u) is None:
+                base.add(z3.Not(u))
+
+        def feasible(assign):
+            lits = [c if v else z3.Not(c) for c, v in assign]
+            return base.check(*lits) != z3.unsat
+
+        res = sg.certify_equal_by_cases(za, ze, feasible)
+        if res is None:
+            return []
+        dens = _denominators(za) + _denominators(ze)
+        guard = [d != 0 for d in dens]
+        facts = []
+        for assign, ok in res:
+            if not ok:
+                continue
+            lits = [c if v else z3.Not(c) for c, v in assign]
+            facts.append(z3.Implies(z3.And(*(lits + guard)) if (lits or guard) else z3.BoolVal(True), za == ze))
+        return facts
 
     def eq_tensor(self, name, actual, expected):
         """actual: STensor; expected: STensor (from spec_tensor).  nan-equal, same shape."""
@@ -477,7 +567,7 @@ class ConcreteBackend(BackendBase):
     def integer(self, name, lo=None, hi=None):
         return int(self.values[name])
 
-    def tensor(self, name, shape, nonneg=False, maybe_nan=False, integer=False):
+    def tensor(self, name, shape, nonneg=False, maybe_nan=False, integer=False, ge=()):
         a = self.np.array(self.values[name], dtype=float).reshape(tuple(int(d) for d in shape))
         return a
 
@@ -535,6 +625,20 @@ class ConcreteBackend(BackendBase):
 
     def sqrt(self, x):
         return self.np.sqrt(self.np.float64(x))
+
+    def Phi(self, x):
+        from scipy.stats import norm
+
+        return self.np.float64(norm.cdf(x))
+
+    def Tcdf(self, x, df):
+        from scipy.stats import t
+
+        with self.np.errstate(all="ignore"):
+            return self.np.float64(t.cdf(x, df=df))
+
+    def rank(self, t):
+        return int(self.np.linalg.matrix_rank(t)) if min(t.shape) > 0 else 0
 
     def spec_tensor(self, shape, f):
         shape = tuple(int(d) for d in shape)
@@ -662,11 +766,22 @@ class RandomConcreteBackend(ConcreteBackend):
         self.values[name] = v
         return v
 
-    def tensor(self, name, shape, nonneg=False, maybe_nan=False, integer=False):
+    def tensor(self, name, shape, nonneg=False, maybe_nan=False, integer=False, ge=()):
         shape = tuple(int(d) for d in shape)
         n = 1
         for d in shape:
             n *= d
+        if ge:
+            # dependent ingredient: (max of the lower bounds) + a random non-negative excess
+            low = ge[0]
+            for g in ge[1:]:
+                low = self.np.maximum(low, g)
+            exc = self.np.array(
+                [float(self.rnd.choice([0, 0, 1, 2, 3, 0.5])) for _ in range(n)], dtype=float
+            ).reshape(shape)
+            a = self.np.asarray(low, dtype=float).reshape(shape) + exc
+            self.values[name] = a.tolist()
+            return a
         vals = []
         for _ in range(n):
             v = float(self.rnd.choice([0, 0, 1, 2, 3, 4, 7] if integer else [0, 0, 1, 2, 3, 4, 7, 0.5, 1.25]))
